@@ -85,7 +85,14 @@ var properties = map[string]Prop{
 		Parts:       []Part{{Harness: "c04fut"}, {Harness: "c04ask"}},
 		Level:       "model_checking",
 		QuickBudget: 200, ThoroughBudget: 1800,
-		Rule: "(a) the real future.Future alone: every interleaving, at sync/atomic AND plain field-access granularity, of 2-3 threads drawn from {reply r1, reply r2, Close(actor-dead), Close(nil), PipeTo(f1), PipeTo(f1,f2), PipeTo(f2), Result, Wait} with and without a 1 s timeout (timer deviations), up to the preemption bound, with the happens-before race detector on; (b) Ask through the real actor.System: 1-2 askers x 1-2 asks x replier{once, twice, never, slow} x timeout{1 ns, 1 s, default} x {asker killed, asker killed and re-spawned under the same name before the late reply}, every schedule up to the delay bound with switch points at messages, sends, timer operations and mailbox elections plus timer deviations; distinct_nontrivial = distinct (final result, forwarder log) / result vectors per scenario",
+		Rule:        "(a) the real future.Future alone: every interleaving, at sync/atomic AND plain field-access granularity, of 2-3 threads drawn from {reply r1, reply r2, Close(actor-dead), Close(nil), PipeTo(f1), PipeTo(f1,f2), PipeTo(f2), Result, Wait} with and without a 1 s timeout (timer deviations), up to the preemption bound, with the happens-before race detector on; (b) Ask through the real actor.System: 1-2 askers x 1-2 asks x replier{once, twice, never, slow} x timeout{1 ns, 1 s, default} x {asker killed, asker killed and re-spawned under the same name before the late reply}, every schedule up to the delay bound with switch points at messages, sends, timer operations and mailbox elections plus timer deviations; distinct_nontrivial = distinct (final result, forwarder log) / result vectors per scenario",
+		Assumptions: schedAssumptions,
+	},
+	"C19": {
+		Parts:       []Part{{Harness: "c19es"}, {Harness: "c19sys"}},
+		Level:       "model_checking",
+		QuickBudget: 200, ThoroughBudget: 1800,
+		Rule:        "(a) the real event stream of a started System: 2-3 threads of Subscribe / Unsubscribe / UnsubscribeAll / Publish calls over 2 subscribers and 2 event types (subscribers are references with a recording mailbox), every interleaving at sync granularity up to the delay bound, race detector on; oracle = brute-force linearizability against set semantics, exactly-once, both tables agree and are clean; (b) subscriber actors in a running System: per-publisher order, double subscription, unsubscribe, termination (also zombie, own ActorKilledEvent, events published in reaction to the termination), restart; every schedule up to the delay bound with switch points at messages and sends; distinct_nontrivial = distinct delivery logs per scenario",
 		Assumptions: schedAssumptions,
 	},
 	"C05": {
